@@ -140,6 +140,33 @@ func r15b(c *RuleCtx) {
 		}
 	}
 	if acq == nil {
+		// the file opened by a helper that hands it back
+		for _, cs := range callSites(fn) {
+			if info, ok := fileAcquirer(c.p, staticCallee(cs)); ok {
+				if call, isCall := cs.(*ssa.Call); isCall {
+					if file := extractOf(call, info.fileIdx); file != nil {
+						r15bIn(c, props, fn, file, c.pos(call), 0)
+						return
+					}
+				}
+			}
+		}
+		// a wrapper (hook before / after) around the function that creates the file with the same path
+		for _, cs := range callSites(fn) {
+			g := staticCallee(cs)
+			if g == nil || !c.p.InZap(g) || len(g.Blocks) == 0 || g == fn {
+				continue
+			}
+			for _, cs2 := range callSites(g) {
+				if isCallTo(cs2, "os.OpenFile") || isCallTo(cs2, "os.Create") {
+					if call, ok := cs2.(*ssa.Call); ok {
+						fn, acq = g, call
+					}
+				}
+			}
+		}
+	}
+	if acq == nil {
 		c.undecidedP(props, "mergeSegmentBases/file", c.fpos(fn), "the output file acquisition is found", "no os.OpenFile")
 		return
 	}
@@ -233,7 +260,11 @@ func r15bTail(c *RuleCtx, props []string, ret *ssa.Return, judged map[*ssa.Funct
 // fileOnlyReleased: every use of the *os.File parameter prm in its function is
 // a Close or Sync call on it.
 func fileOnlyReleased(prm *ssa.Parameter) bool {
-	if !isNamed(prm.Type(), "os", "File") || prm.Referrers() == nil {
+	return fileOnlyReleasedRec(prm, 0)
+}
+
+func fileOnlyReleasedRec(prm *ssa.Parameter, depth int) bool {
+	if !isNamed(prm.Type(), "os", "File") || prm.Referrers() == nil || depth > 2 {
 		return false
 	}
 	n := 0
@@ -242,6 +273,20 @@ func fileOnlyReleased(prm *ssa.Parameter) bool {
 		case *ssa.DebugRef:
 		case ssa.CallInstruction:
 			f := staticCallee(x)
+			// handed on to another helper that only releases it (`finishSegmentFile` -> `discardSegmentFile`)
+			if f != nil && len(f.Blocks) > 0 && strings.HasPrefix(f.String(), zapPkgPath) {
+				handedOK := false
+				for ai, a := range x.Common().Args {
+					if a == ssa.Value(prm) && ai < len(f.Params) && fileOnlyReleasedRec(f.Params[ai], depth+1) {
+						handedOK = true
+					}
+				}
+				if !handedOK {
+					return false
+				}
+				n++
+				continue
+			}
 			if f == nil || (f.String() != "(*os.File).Close" && f.String() != "(*os.File).Sync") || len(x.Common().Args) == 0 || x.Common().Args[0] != ssa.Value(prm) {
 				return false
 			}
@@ -1193,26 +1238,26 @@ func docNumTableElem(v ssa.Value) (*ssa.IndexAddr, bool) {
 	for i := 0; i < 6; i++ {
 		switch y := x.(type) {
 		case *ssa.Parameter:
-			return ia, strings.Contains(canonParamName(y), "DocNums")
+			return ia, isRenumberingName(canonParamName(y))
 		case *ssa.FreeVar:
 			// a captured parameter answers to its pinned name
 			if b := freeVarBinding(y); b != nil {
 				if al, ok := b.(*ssa.Alloc); ok {
 					for _, st := range cellStores(al) {
 						if prm, ok := st.Val.(*ssa.Parameter); ok {
-							return ia, strings.Contains(canonParamName(prm), "DocNums")
+							return ia, isRenumberingName(canonParamName(prm))
 						}
 					}
 				}
 			}
-			return ia, strings.Contains(y.Name(), "DocNums")
+			return ia, isRenumberingName(y.Name())
 		case *ssa.Alloc:
 			for _, st := range cellStores(y) {
 				if prm, ok := st.Val.(*ssa.Parameter); ok {
-					return ia, strings.Contains(canonParamName(prm), "DocNums")
+					return ia, isRenumberingName(canonParamName(prm))
 				}
 			}
-			return ia, strings.Contains(y.Comment, "DocNums")
+			return ia, isRenumberingName(y.Comment)
 		case *ssa.UnOp:
 			if y.Op != token.MUL {
 				return nil, false
@@ -1226,7 +1271,7 @@ func docNumTableElem(v ssa.Value) (*ssa.IndexAddr, bool) {
 				return nil, false
 			}
 		case *ssa.Phi:
-			return ia, strings.Contains(y.Comment, "DocNums")
+			return ia, isRenumberingName(y.Comment)
 		default:
 			return nil, false
 		}
@@ -1900,4 +1945,10 @@ func isWriterInterface(t types.Type) bool {
 		}
 	}
 	return false
+}
+
+// isRenumberingName: the variable holds (part of) the table old document number -> new document number
+// (newDocNums, newDocNumsIn, segNewDocNums …) — not just any list of document numbers (localDocNums).
+func isRenumberingName(n string) bool {
+	return strings.Contains(strings.ToLower(n), "newdocnum")
 }
